@@ -206,3 +206,16 @@ def replay(ctx, case):
         m = check_region(case["region"], case["template"], case["soup"])
         return [m] if m else []
     return []
+
+LEVEL_TEXT = ("Proved in Coq for all token lists (no size bound): _discard_contents returns exactly after the matching closer "
+              "for every soup in which the two counted bracket types nest (discard_exact); _consume_balanced_tokens started "
+              "after any strict opener returns exactly the group for every strict-nested soup with '<'/'>' free "
+              "(consume_balanced_exact), never consumes or invents tokens outside it (consume_contiguous), and the "
+              "continuation is independent of the soup (region_independence). The model is a hand-written mirror of the two "
+              "Python functions with tables regenerated from the live class on every run; a differential run (thousands of "
+              "balanced/broken/truncated token lists) ties it to the code, and a region search (22 skippable regions x "
+              "generated soups through parse_string) covers the un-modelled call sites.")
+LEVEL_NOTE = ("Trusted: Coq kernel, translator for the tables, extraction (ExtrOcamlBasic), driver, harness. Hand model validated by "
+              "correspondence only. Call sites of the consumers are searched, not proved. ']]' closing two '[' (F8) is outside the "
+              "soup class (token level).")
+TECHNIQUE = "Coq proof by induction over nested-soup derivations (stack invariant) + differential run of the extracted model + region search"
